@@ -102,4 +102,17 @@ def addedIds : List Op → List Nat
   | .add c :: t => c.id :: addedIds t
   | _ :: t => addedIds t
 
+/-- the peer an operation is about -/
+def Op.peer : Op → PeerId
+  | .add c => c.peer
+  | .remove p _ => p
+  | .removeStable p _ _ => p
+
+def Event.peer : Event → PeerId
+  | .newPeer p => p
+  | .lostPeer p _ => p
+
+/-- the events about peer `q` -/
+def eventsOf (q : PeerId) (l : List Event) : List Event := l.filter (fun e => e.peer = q)
+
 end Anemo
